@@ -159,7 +159,7 @@ ORDER = ["samptype", "sampsize", "sampcount", "samprate", "chancount", "inporder
 
 
 def guard_def(name, test):
-    vs = [v for v in ORDER if v in set(used(test))]
+    vs = list(ORDER)  # always all six variables, so that a guard may mention any of them
     args = " ".join("(%s : %s)" % (v, TYPS[HVARS[v][1]]) for v in vs)
     return "Definition %s %s : bool :=\n  %s.\n(* arguments: %s *)" % (name, args, guard(test), " ".join(vs)), vs
 
@@ -360,8 +360,6 @@ def read_header(fn, out):
         raise Unsupported("header variables are not all initialised to None")
     g1, a1 = guard_def("hdr_infer_pcm", infer.test)
     g2, a2 = guard_def("hdr_reject", reject.test)
-    if a1 != ["samptype", "sampsize", "inporder"] or a2 != ["samptype", "sampcount", "samprate", "chancount", "inporder"]:
-        raise Unsupported("guards mention other variables than expected: %s %s" % (a1, a2))
     out += [
         "(* ---- read_header *)",
         "Definition hdr_first_read : Z := %d." % first,
